@@ -109,7 +109,17 @@ def inv_axioms(D0):
         z3.ForAll([o, s, t], z3.Implies(is_some(T(), D0['D.trial'][tkey(o, s, t)]), D0['D.seq'][tkey(o, s, t)] < D0['D.next'])),
         z3.ForAll([o, s, c, n], z3.Implies(is_some(OP(), D0['D.sop'][okey(o, s, c, n)]), D0['D.seq'][okey(o, s, c, n)] < D0['D.next'])),
     ]
+    # the servicer-level invariant of the view (stored messages carry the canonical name of their key, ...), for every key
+    k = z3.Const('k!iv', Name)
+    ax.append(z3.ForAll([k], S.inv_at(D0, k)))
     return ax
+
+
+def fstr_axioms(opid):
+    """operation_id is injective in its components (DESIGN 4.3), as a quantified fact for the discharge queries."""
+    vs = [opid.ph[a] for a in opid.attrs if any(ch.eq(opid.ph[a]) for ch in opid.term.children())]
+    body = z3.And(*[fstr_inv(opid.term.decl(), i, ch.sort())(opid.term) == ch for i, ch in enumerate(opid.term.children())])
+    return z3.ForAll(vs, body, patterns=[opid.term])
 
 
 def touch_study(it, D0, o, s):
@@ -217,6 +227,8 @@ def build_store(it):
     st.cls = mod.classes[CLS]
     st.sopid = OpId(it, 'SuggestionOperationResource', ['owner_id', 'study_id', 'client_id', 'operation_number'], 'operation_number')
     st.eopid = OpId(it, 'EarlyStoppingOperationResource', ['owner_id', 'study_id', 'trial_id'], 'trial_id')
+    run.axiom(fstr_axioms(st.sopid))
+    run.axiom(fstr_axioms(st.eopid))
     ctx = st.ctx
     ONode, SNode, CNode = mod.classes['OwnerNode'], mod.classes['StudyNode'], mod.classes['ClientNode']
 
@@ -547,7 +559,8 @@ def make_args(it, method, variant):
         a.impl, a.spec, a.kind, a.name, a.client = [nm, cl], [nm, cl], 'study', nm, cl
         if method == 'list_suggestion_operations':
             f = filter_symbol()
-            flt = Builtin('filter_fn', lambda it_, args, kw: f(args[0].pack())) if variant == 'filter' else None
+            with_filter = it.run.choose(z3.Bool('c07_a_filter_is_given'))
+            flt = Builtin('filter_fn', lambda it_, args, kw: f(args[0].pack())) if with_filter else None
             a.impl, a.spec = [nm, cl, flt], [nm, cl, flt]
     elif method == 'update_metadata':
         KV, UMU = S.schema('vizier.KeyValue'), S.schema('vizier.UnitMetadataUpdate')
@@ -556,8 +569,15 @@ def make_args(it, method, variant):
             return SymList(z3.Const('a_smd_n', I), z3.Const('a_smd', z3.ArraySort(I, pm.msg_sort(KV))), KV)
         it.run.assume(z3.Const('a_smd_n', I) >= 0)
         k = int(variant)
+        for i in range(k):     # canonical ids (DESIGN 4.3): a trial id that is an integer literal is the canonical one
+            tid = acc(UMU, 'trial_id')(z3.Const('a_tmd%d' % i, pm.msg_sort(UMU)))
+            it.run.assume(z3.Implies(M.is_int_str(tid), z3.And(M.canonical_int_str(tid), M.int2str(M.str2int(tid)) == tid)))
         a.impl = [nm, kvs(), [sym_msg(UMU, 'a_tmd%d' % i) for i in range(k)]]
-        a.spec = [nm, kvs(), [sym_msg(UMU, 'a_tmd%d' % i) for i in range(k)]]
+        # the contract gets the same list as an array-list over an array constant (so that its quantified facts have a trigger)
+        tarr = z3.Const('a_tmd_arr', z3.ArraySort(I, pm.msg_sort(UMU)))
+        for i in range(k):
+            it.run.assume(tarr[i] == z3.Const('a_tmd%d' % i, pm.msg_sort(UMU)))
+        a.spec = [nm, kvs(), SymList(z3.IntVal(k), tarr, UMU)]
         a.kind, a.name = 'study', nm
     else:
         raise Unsupported('no argument description for method %s' % method)
@@ -718,6 +738,45 @@ def post(p):
                         obs[nm] = z3.substitute(f, (cv, rv))
         else:
             obs['result'] = values_equal(cv, iv)
+    lemmas = []
+    if method in LIST_METHODS or method in ('max_trial_id', 'max_suggestion_operation_number'):
+        # cut: the name stored in the i-th listed value parses to the key of the i-th listed dict key (from Inv(D0))
+        i = z3.Int('i!l1')
+        for li, L in enumerate(st.ctx.lists):
+            if L.what != 'values' or not isinstance(L.elem, pm.MsgSchema):
+                continue
+            nm_of = lambda ix, L=L: parse(acc(L.elem, 'name')(L.arr[ix]))
+            if L.lazy.name == 'trial_protos':
+                key = lambda ix, L=L: tkey(Name.o1(n), Name.s1(n), L.keyat[ix])
+            elif L.lazy.name == 'studies':
+                key = lambda ix, L=L: skey(Name.o0(n), L.keyat[ix])
+            elif L.lazy.name == 'suggestion_operations':
+                key = lambda ix, L=L: okey(Name.o1(n), Name.s1(n), r.args.client, st.sopid.num(L.keyat[ix]))
+            else:
+                continue
+            lemmas.append((P + 'lemma.listed_names.%d' % li, z3.ForAll([i], z3.Implies(z3.And(i >= 0, i < L.n), nm_of(i) == key(i))), 'lemma'))
+            # cut: every present key of the dict has a position in the listing (the dict-iteration model, at the right terms)
+            k = z3.Const('k!l2', Name)
+            if L.lazy.name == 'trial_protos':
+                belongs, idx = z3.And(Name.is_trial(k), S.study_of_trial(k) == n), Name.t2(k)
+            elif L.lazy.name == 'studies':
+                belongs, idx = z3.And(Name.is_study(k), Name.o1(k) == Name.o0(n)), Name.s1(k)
+            else:
+                belongs = z3.And(Name.is_sop(k), Name.o3(k) == Name.o1(n), Name.s3(k) == Name.s1(n), Name.c3(k) == r.args.client)
+                idx = st.sopid(study_id=Name.s1(n), client_id=r.args.client, operation_number=Name.n3(k))
+            here = z3.And(belongs, L.lazy.has_term(idx))
+            lemmas.append((P + 'lemma.listed_positions.%d' % li,
+                           z3.ForAll([k], z3.Implies(here, z3.And(L.pos[idx] >= 0, L.pos[idx] < L.n, L.keyat[L.pos[idx]] == idx))), 'lemma'))
+            res = iv if ik == 'return' else None
+            if isinstance(res, SymList) and getattr(res, 'src', None) is not None and getattr(res, 'parent', None) is not None \
+                    and res.parent.arr.eq(L.arr):
+                isrc = getattr(p.run, 'sfm_inverse', {}).get(res.src.get_id())
+                if isrc is not None:
+                    j = isrc[L.pos[idx]]
+                    lemmas.append((P + 'lemma.filtered_positions.%d' % li,
+                                   z3.ForAll([k], z3.Implies(z3.And(here, res.cond_at(L.pos[idx])),
+                                                             z3.And(j >= 0, j < res.n, res.src[j] == L.pos[idx],
+                                                                    parse(acc(L.elem, 'name')(res.arr[j])) == k))), 'lemma'))
     if method == 'list_studies' and ck == 'raise' and E.class_name(cv.cls) == 'NotFoundError':
         ax = [f for k_, f in r.captured if k_ == 'axiom']
         obs['missing_owner_has_no_study'] = z3.And(*ax) if ax else B(False)
@@ -729,7 +788,15 @@ def post(p):
     tick1 = r.tick + new_concrete_entries(st)
     maps = ('study', 'trial', 'sop', 'eop')
     present = {m: is_some(SCH[m](), A[m]) for m in maps}
-    if ck == 'return':
+    if ck == 'return' and method == 'update_metadata':
+        # Appendix A ("each named trial's metadata := merge(old, its updates), nothing else"); ds_update_metadata applies the
+        # merge function to every trial of the study with the whole update list, which is the same view under the C10 lemmas
+        exp_study, exp_trial = md_expected(r)
+        obs['effect'] = z3.And(A['study'] == exp_study, A['trial'] == exp_trial, A['sop'] == V0['sop'], A['eop'] == V0['eop'],
+                               A['owner'] == OWN0[o])
+        obs['effect.stamps'] = z3.And(*([z3.Implies(present[m], A['seq_' + m] == V0['seq_' + m]) for m in ('study', 'trial', 'sop')]
+                                        + [tick1 == r.D0['D.next']]))
+    elif ck == 'return':
         obs['effect'] = z3.And(*([A[m] == V1[m] for m in maps] + [A['owner'] == own1]))
         obs['effect.stamps'] = z3.And(*([z3.Implies(present[m], A['seq_' + m] == V1['seq_' + m]) for m in ('study', 'trial', 'sop')]
                                         + [tick1 == r.D1['D.next']]))
@@ -767,4 +834,362 @@ def post(p):
     if unlocked:
         obs['lock'] = B(False)
     r.unlocked = unlocked[:6]
-    return [(P + nm, f) for nm, f in obs.items()]
+    return lemmas + [(P + nm, f) for nm, f in obs.items()]
+
+
+# ------------------------------------------------------------------------------------------ update_metadata
+MDU = 'vizier._src.pyvizier.oss.metadata_util'
+
+
+def _merge_model(which):
+    """metadata_util.merge_*_metadata(proto, updates): the effect on the enclosing stored message is *named* by the spec
+    functions merge_study_md / merge_trial_md of the contract (servicer_model.md_functions); their properties
+    (last-writer-wins, only `metadata` changes, updates of other trials ignored) are proved on the real functions in C10."""
+    def fn(it, args, kw):
+        ms, mt = S.md_functions()
+        target, updates = args[0], args[1]
+        if which == 'study':
+            if not isinstance(target, Msg) or target.parent is None or target.parent[0].schema.fq != ST().fq:
+                raise Unsupported('merge_study_metadata on a StudySpec that is not the study_spec of a Study message')
+            msg, f, elem = target.parent[0], ms, S.schema('vizier.KeyValue')
+        else:
+            if not isinstance(target, Msg) or target.schema.fq != T().fq:
+                raise Unsupported('merge_trial_metadata on %r' % (target,))
+            msg, f, elem = target, mt, S.schema('vizier.UnitMetadataUpdate')
+        L = M.to_symlist(it, updates, elem)
+        new = f(msg.pack(), L.n if z3.is_expr(L.n) else z3.IntVal(L.n), L.arr)
+        msg.base = new
+        msg.f, msg.has, msg.case = {}, {}, {}
+        msg.touch()
+        return None
+    return fn
+
+
+E.MODELS[MDU + ':merge_study_metadata'] = _merge_model('study')
+E.MODELS[MDU + ':merge_trial_metadata'] = _merge_model('trial')
+
+
+def md_expected(r):
+    """Appendix A: D' of update_metadata(n, S, T) on success, at the generic keys (study, trial)."""
+    ms, mt = S.md_functions()
+    UMU = S.schema('vizier.UnitMetadataUpdate')
+    n, D0 = r.key, r.D0
+    smd, tmd = r.args.impl[1], r.args.impl[2]
+    o, s, t = G['o'], G['s'], G['t']
+    old_s = D0['D.study'][skey(o, s)]
+    exp_study = z3.If(skey(o, s) == n, some(ST(), ms(val(ST(), old_s), smd.n, smd.arr)), old_s)
+    cnt, arr = z3.IntVal(0), z3.K(I, pm._default_term(pm.msg_sort(UMU)))
+    for u in tmd:
+        hit = M.str2int(E.to_z3(u.get('trial_id'))) == t
+        arr = z3.If(hit, z3.Store(arr, cnt, u.pack()), arr)
+        cnt = z3.If(hit, cnt + 1, cnt)
+    old_t = D0['D.trial'][tkey(o, s, t)]
+    exp_trial = z3.If(z3.And(skey(o, s) == n, cnt > 0), some(T(), mt(val(T(), old_t), cnt, arr)), old_t)
+    return exp_study, exp_trial
+
+
+# ------------------------------------------------------------------------------------------ discharge (E-matching first)
+_engine_discharge = E.discharge
+
+
+def discharge(run, formula, npc=None, nax=None, timeout_ms=10000, extra=()):
+    """pc & axioms |= formula.  Every proof of this check goes through by E-matching; model-based quantifier instantiation
+    only matters for *refuting* an obligation and z3 does not honour its timeout there.  So: first without MBQI; an
+    obligation that is literally `False` (an outcome / identity clause decided on the path: the question is whether the
+    path is feasible) stays `unknown` and is handed to the bounded native comparison; anything else falls back to the
+    engine's discharge."""
+    t0 = time.time()
+    s = z3.Solver()
+    s.set('timeout', timeout_ms)
+    s.set('smt.mbqi', False)
+    pcs = run.pc if npc is None else run.pc[:npc]
+    axs = run.axioms if nax is None else run.axioms[:nax]
+    for c in list(pcs) + list(axs) + list(extra):
+        s.add(c)
+    lits = pm.all_str_lits()
+    if len(lits) > 1:
+        s.add(z3.Distinct(*lits))
+    f = formula if not isinstance(formula, bool) else z3.BoolVal(formula)
+    s.add(z3.Not(f))
+    r = s.check()
+    if r == z3.unsat:
+        return 'unsat', None, time.time() - t0
+    if z3.is_false(z3.simplify(f)):
+        return 'unknown', 'the path of this decided clause is not refuted (E-matching saturated)', time.time() - t0
+    v, m, dt = _engine_discharge(run, formula, npc, nax, timeout_ms=min(timeout_ms, 4000), extra=extra)
+    return v, m, time.time() - t0
+
+
+E.discharge = discharge
+
+
+# ------------------------------------------------------------------------------------------ recorded findings
+UPSERT = ('RAM %s inserts the operation when it does not exist but its container does, instead of raising NotFoundError '
+          '(datastore.py: "Raises NotFoundError if ... op is nonexistent"; SQL raises)')
+
+
+def known_for(method):
+    """known = {obligation: (what, witness class)} for verify_function: the residual obligation must still be proved."""
+    if method == 'update_suggestion_operation':
+        def cls(p):
+            n, D0 = p.value.key, p.value.D0
+            o, s, c = Name.o3(n), Name.s3(n), Name.c3(n)
+            return z3.And(Name.is_sop(n), is_some(ST(), D0['D.study'][skey(o, s)]), is_some(OP(), D0['D.sop'][okey(o, s, c, z3.IntVal(1))]),
+                          z3.Not(is_some(OP(), D0['D.sop'][n])))
+        return {'C07.ram.update_suggestion_operation.error_class': (UPSERT % 'update_suggestion_operation', cls)}
+    if method == 'update_early_stopping_operation':
+        def cls(p):
+            n, D0 = p.value.key, p.value.D0
+            return z3.And(Name.is_eop(n), is_some(ST(), D0['D.study'][skey(Name.o4(n), Name.s4(n))]), z3.Not(is_some(EO(), D0['D.eop'][n])))
+        return {'C07.ram.update_early_stopping_operation.error_class': (UPSERT % 'update_early_stopping_operation', cls)}
+    return None
+
+
+def describe_path(name, p, model):
+    r = p.value
+    d = lambda o: ('raise ' + E.class_name(o[1].cls)) if o[0] == 'raise' else ('return ' + type(o[1]).__name__)
+    rep = {'method': r.method, 'contract_outcome': d(r.contract), 'implementation_outcome': d(r.impl),
+           'store_entries_touched': [(x.name, [(str(e.key), e.present, e.origin) for e in x.entries]) for x in
+                                     [v for v in store_objects(r.st).values() if isinstance(v, LZ.LazyDict)]][:12],
+           'shared_with_store': getattr(r, 'shared_result', None), 'argument_shared_with_store': getattr(r, 'shared_arg', None),
+           'reachable_twice': getattr(r, 'dup', None), 'unlocked_accesses': getattr(r, 'unlocked', None)}
+    return rep, None
+
+
+# ------------------------------------------------------------------------------------------ running one method (child)
+class Recorder:
+    """stands in for report.Check inside a worker process: keeps what verify_function records as plain data."""
+
+    def __init__(self):
+        self.recs, self.assumptions = [], []
+
+    def assume(self, text):
+        self.assumptions.append(text)
+
+    def obligation(self, name, function, backend, result, time_s=0.0, detail=None, model=None, replay=None, reproduced=None, finding=None):
+        self.recs.append(dict(name=name, function=function, backend=backend, result=result, time_s=time_s,
+                              detail=json.loads(json.dumps(detail, default=str)) if detail is not None else None,
+                              model=model if (model is None or isinstance(model, str)) else repr(model),
+                              replay=json.loads(json.dumps(replay, default=str)) if replay is not None else None,
+                              reproduced=reproduced, finding=finding))
+
+
+def verify_method(job):
+    method, variant, timeout_ms = job
+    rec = Recorder()
+    t0 = time.time()
+    try:
+        fr = verify.verify_function(rec, '%s.%s' % (CLS, method), make_entry(method, variant), post, timeout_ms=timeout_ms,
+                                    known=known_for(method), on_violation=describe_path, workers=1, path_timeout_ms=2000)
+        paths = len(fr.paths)
+    except Exception as e:    # a crash of the checker is an error, never a verdict
+        import traceback
+        rec.obligation('C07.ram.%s.checker' % method, '%s.%s' % (CLS, method), 'checker', report.ERROR, 0.0,
+                       detail='%r\n%s' % (e, traceback.format_exc()[-1500:]))
+        paths = 0
+    return method, variant, rec.recs, rec.assumptions, paths, time.time() - t0
+
+
+def lock_lexical(fn):
+    """line numbers of accesses to self._owners outside `with self._lock` (AST; cf. C04 datastore.atomic)."""
+    bad = []
+
+    def visit(node, locked):
+        if isinstance(node, ast.With):
+            lk = locked or any(ast.unparse(i.context_expr) == 'self._lock' for i in node.items)
+            for i in node.items:
+                visit(i.context_expr, locked)
+            for b in node.body:
+                visit(b, lk)
+            return
+        if isinstance(node, ast.Attribute) and isinstance(node.value, ast.Name) and node.value.id == 'self' and node.attr == '_owners' and not locked:
+            bad.append(node.lineno)
+        for c in ast.iter_child_nodes(node):
+            visit(c, locked)
+    for st in fn.body:
+        visit(st, False)
+    return bad
+
+
+# ------------------------------------------------------------------------------------------ bounded stand-in (native)
+HERE = os.path.dirname(os.path.dirname(os.path.abspath(__file__)))
+REPLAY = os.path.join(HERE, 'replay', 'c07_replay.py')
+F10 = ('SQL delete_study keeps the suggestion / early-stopping operation rows of the study (and the SQL operation queries never '
+       'look at the studies table): after delete + re-create the next suggestion operation is .../c1/2 on SQL and .../c1/1 on RAM, '
+       'and the operations of the deleted study stay readable')
+DEV_TEXT = {'sql_delete_keeps_ops': F10, 'ram_update_op_upserts': UPSERT % 'update_suggestion_operation / update_early_stopping_operation'}
+DEV_OBLIGATION = {'sql_delete_keeps_ops': 'C07.bounded.sql.delete_study_removes_operations',
+                  'ram_update_op_upserts': 'C07.bounded.ram.update_operation_missing_raises'}
+
+
+def start_native(payload):
+    return subprocess.Popen(['/venv/bin/python', REPLAY, 'explore', json.dumps(payload)], stdout=subprocess.PIPE, stderr=subprocess.PIPE, text=True)
+
+
+def finish_native(proc, timeout):
+    try:
+        out, err = proc.communicate(timeout=timeout)
+    except subprocess.TimeoutExpired:
+        proc.kill()
+        return None, 'native exploration did not finish within %ss' % timeout
+    lines = [l for l in out.splitlines() if l.startswith('{')]
+    if proc.returncode != 0 or not lines:
+        return None, 'native exploration failed (exit %s): %s' % (proc.returncode, (err or out)[-1500:])
+    return json.loads(lines[-1]), None
+
+
+def native_witness(native, method, clause):
+    """an unexplained divergence of the real RAM datastore from the contract that reproduces obligation `clause` of `method`."""
+    if native is None:
+        return None
+    for d in native['unexplained']:
+        w = d['witness']
+        if d['backend'] != 'ram':
+            continue
+        if clause.startswith('by_value.'):
+            if d['kind'] == clause and d['method'] == method:
+                return d
+            continue
+        if clause in ('lock', 'tree_ownership') or d['kind'].startswith('by_value.'):
+            continue
+        if d['method'] == method or (d['kind'] == 'contents' and method in w.get('mutators', [])):
+            return d
+    return None
+
+
+def same_defect(native, d):
+    """signatures of the divergences that are other faces of the witness d (same backend, same kind of symptom)."""
+    out = {d['signature']}
+    for x in native['unexplained']:
+        if x['backend'] != d['backend']:
+            continue
+        if d['kind'].startswith('by_value.') and x['kind'] == d['kind'] and x['method'] in (d['method'], 'not-located'):
+            out.add(x['signature'])
+        if not d['kind'].startswith('by_value.') and not x['kind'].startswith('by_value.') and \
+                (x['method'] == d['method'] or d['method'] in x['witness'].get('mutators', []) or x['method'] in d['witness'].get('mutators', [])):
+            out.add(x['signature'])
+    return out
+
+
+def replay_of(d):
+    w = d['witness']
+    return {'driver': 'replay/c07_replay.py run', 'sequences': [w['sequence']], 'backend': d['backend'], 'kind': d['kind'],
+            'diverging_step': w.get('op') or w.get('read'), 'contract_says': w['expected'], 'real_code_says': w['observed'],
+            'leaking_call': w.get('leaking_call'), 'runs_with_this_signature': d['count']}
+
+
+# ------------------------------------------------------------------------------------------ main
+def main(tier):
+    import multiprocessing
+    quick = tier == 'quick'
+    chk = report.Check('C07', tier, level='proof',
+                       technique='refinement of the abstract DataStore contract (servicer_model.ds_*) by the real NestedDictRAMDataStore '
+                                 'methods, executed symbolically on a lazily materialised store Rep^-1(D0); SQL: run-time contract '
+                                 'checking on enumerated operation sequences (bounded stand-in)')
+    mod = ModuleInfo.get(RAM)
+    if CLS not in mod.classes:
+        chk.error('C07.extract', 'class %s not found in %s' % (CLS, RAM))
+        return chk.finish(min_obligations=200)
+    for m in METHODS:
+        chk.function(RAM, '%s.%s' % (CLS, m))
+        chk.function(SQL, 'SQLDataStore.%s' % m, role='bounded stand-in (run-time contract checking)')
+    for a in ASSUMPTIONS:
+        chk.assume(a)
+    chk.trust('pyvc VC generator + pyvc/lazystore.py (dict model)')
+    chk.trust('z3 5.1.0')
+    chk.trust('metadata_util.merge_study_metadata / merge_trial_metadata are named by the spec functions merge_study_md / merge_trial_md '
+              '(properties proved on the real functions in C10)')
+    chk.trust('SQLAlchemy / SQLite (external): only exercised by the bounded stand-in')
+
+    native_proc = start_native({'maxlen': 3 if quick else 4, 'alphabet': 'quick', 'workers': 10 if quick else 16})
+    native2_proc = None if quick else start_native({'maxlen': 2, 'alphabet': 'thorough', 'workers': 4, 'targeted': False})
+
+    # ---- Part 1: the 20 RAM methods
+    tmo = 6000 if quick else 30000
+    jobs = [(m, '0', tmo) for m in METHODS] + [('update_metadata', v, tmo) for v in (['1'] if quick else ['1', '2'])]
+    with multiprocessing.get_context('fork').Pool(min(12, len(jobs))) as pool:
+        results = pool.map(verify_method, jobs, chunksize=1)
+    native, nerr = finish_native(native_proc, 240 if quick else 3000)
+    native2, nerr2 = (None, None) if native2_proc is None else finish_native(native2_proc, 3000)
+    for nat, err in ((native, nerr), (native2, nerr2)):
+        if err:
+            chk.error('C07.bounded.native_exploration', err)
+    natives = [n for n in (native, native2) if n is not None]
+    merged = None
+    if natives:
+        merged = {'unexplained': [d for n in natives for d in n['unexplained']], 'divergences': [d for n in natives for d in n['divergences']],
+                  'outside_precondition': [x for n in natives for x in n['outside_precondition']]}
+    used = set()
+    bounded_md = []
+    for method, variant, recs, assumptions, paths, wall in results:
+        for a in assumptions:
+            chk.assume(a)
+        for r in recs:
+            name = r['name']
+            clause = '.'.join(name.split('.')[3:])
+            result, backend, replay, reproduced, model = r['result'], r['backend'], r['replay'], r['reproduced'], r['model']
+            if result in (report.UNDECIDED, report.VIOLATED) and not reproduced:
+                d = native_witness(merged, method, clause)
+                if d is not None:
+                    used |= same_defect(merged, d)
+                    result, backend, reproduced = report.VIOLATED, backend + '+native-replay', True
+                    replay = dict(replay or {}, **replay_of(d))
+                    model = (model or '') + '\nnot proved on a path of the real method; the divergence from the contract is reproduced on the real ' \
+                                            'NestedDictRAMDataStore by the sequence in this file'
+            if variant != '0':
+                bounded_md.append((variant, name, result))
+                if result != report.VIOLATED:
+                    continue
+                name = '%s[trial_metadata of length %s]' % (name, variant)
+            chk.obligation(name, r['function'], backend, result, r['time_s'], detail=r['detail'], model=model, replay=replay,
+                           reproduced=reproduced, finding=r['finding'])
+    for v in sorted({v for v, _, _ in bounded_md}):
+        rs = [res for vv, _, res in bounded_md if vv == v]
+        chk.bounded_standin('C07.ram.update_metadata with %s trial-metadata update(s)' % v,
+                            'concrete list spine of length %s (symbolic ids / keys / values, symbolic study_metadata of any length)' % v,
+                            'all %d obligations proved' % len(rs) if all(x in (report.PROVED, report.KNOWN) for x in rs)
+                            else 'NOT all proved: %s' % sorted({x for x in rs}),
+                            detail='the loops of update_metadata over trial_metadata are unrolled; all-or-nothing for every length: C10.ram.update_metadata.*')
+    # lexical lock discipline (decidable on the AST)
+    for m in METHODS:
+        fn = mod.classes[CLS].methods.get(m)
+        if fn is None:
+            continue
+        bad = lock_lexical(fn)
+        chk.obligation('C07.ram.%s.lock.lexical' % m, '%s.%s' % (CLS, m), 'frame', report.VIOLATED if bad else report.PROVED, 0.0,
+                       detail={'unlocked_accesses_at_lines': bad} if bad else None,
+                       model='self._owners is accessed outside `with self._lock` at lines %s of %s' % (bad, mod.path) if bad else None)
+
+    # ---- Part 2: bounded comparison RAM / SQL(:memory:) / SQL(file) against the contract
+    if merged is not None:
+        bound = 'all sequences of length <= %d over %d operations (2 studies x 3 trials x 2 clients, owner without studies, malformed and ' \
+                'non-canonical names, metadata updates naming missing trials) + %d targeted scenarios (delete + re-create, ...): %d sequences' \
+                % (native['maxlen'] if native else 0, native['alphabet'] if native else 0, native['targeted'] if native else 0,
+                   sum(n['sequences'] for n in natives))
+        for b in ('ram', 'sql_mem', 'sql_file'):
+            ds = [d for d in merged['divergences'] if d['backend'] == b]
+            res = 'agrees with the contract on every sequence' if not ds else \
+                '%d diverging runs: %s' % (sum(d['count'] for d in ds), sorted({d['explained_by'] or 'UNEXPLAINED' for d in ds}))
+            chk.bounded_standin('C07.bounded.contract_around.%s' % b, bound, res)
+        chk.bounded_standin('C07.bounded.ram_vs_sql', bound,
+                            'RAM, SQL(:memory:) and SQL(file) give the same responses / error classes / contents except where one of them '
+                            'diverges from the contract (listed above)')
+        for dev in ('sql_delete_keeps_ops', 'ram_update_op_upserts'):
+            ds = [d for d in merged['divergences'] if d['explained_by'] == dev]
+            if ds:
+                d = sorted(ds, key=lambda d: -len(d['witness']['sequence']))[0] if dev == 'sql_delete_keeps_ops' else ds[0]
+                chk.obligation(DEV_OBLIGATION[dev], 'SQLDataStore.delete_study' if dev.startswith('sql') else CLS + '.update_*_operation',
+                               'native-replay', report.KNOWN, 0.0, detail={'runs': sum(x['count'] for x in ds), 'witness': replay_of(d)},
+                               finding=DEV_TEXT[dev])
+        for d in merged['unexplained']:
+            if d['signature'] in used:
+                continue
+            nm = 'C07.bounded.%s.%s.%s' % (d['backend'], d['method'], d['kind'])
+            chk.obligation(nm, ('SQLDataStore.' if d['backend'].startswith('sql') else CLS + '.') + str(d['method']), 'native-replay',
+                           report.VIOLATED, 0.0, detail={'runs': d['count']},
+                           model='the real %s datastore diverges from the abstract contract (and this is not explained by a recorded finding): '
+                                 'contract %s, real code %s' % (d['backend'], d['witness']['expected'], d['witness']['observed']),
+                           replay=replay_of(d), reproduced=True)
+        for x in merged['outside_precondition'][:12]:
+            chk.note('outside the contract precondition (%s): %s -> %s.' % (x['why'], x['op'], x['outcomes']))
+    return chk.finish(min_obligations=200)
